@@ -238,3 +238,22 @@ def long_buf_case(rng, mode, thorough=False):
     c.ops.append(f"data {hx(rb(rng, n * bs + rng.randrange(0, bs)))}")
     c.ops.append(f"data {hx(rb(rng, bs + 1))}")
     return c
+
+
+# ---- the `*_inout` / other padded entry points of the block-mode and async traits (harness ops `blockio`, `blockiob`, `blocksio`,
+# `blocksiob`, `oneshotio`, `oneshotiob`, `padencs`, `padencb`, `paddecs`, `paddecb`): same call, another public route ----
+ROUTE_ALT = {"block": "blockio", "blockb": "blockiob", "blocks": "blocksio", "blocksb": "blocksiob", "oneshot": "oneshotio",
+             "oneshotb": "oneshotiob"}
+
+
+def reroute(rng, ops, p=0.2):
+    """rewrite some operations of a history to their alternative public route"""
+    out = []
+    for o in ops:
+        t = o.split(" ", 1)
+        if t[0] in ROUTE_ALT and rng.random() < p:
+            o = ROUTE_ALT[t[0]] + (" " + t[1] if len(t) > 1 else "")
+        elif t[0] in ("padenc", "paddec") and rng.random() < 2 * p:
+            o = t[0] + rng.choice(["s", "b"]) + " " + t[1]
+        out.append(o)
+    return out
